@@ -514,6 +514,7 @@ func main() {
 	// concurrent compilations would interfere, sequential ones could depend on history)
 	{
 		pkgVars := map[string]bool{}
+		pureVars := map[string]bool{}
 		var parsed []*ast.File
 		for _, f := range files {
 			if strings.HasSuffix(f, "_test.go") || strings.Contains(f, "verif_hooks") {
@@ -524,8 +525,16 @@ func main() {
 			for _, d := range af.Decls {
 				if gd, ok := d.(*ast.GenDecl); ok && gd.Tok == token.VAR {
 					for _, sp := range gd.Specs {
-						for _, nm := range sp.(*ast.ValueSpec).Names {
+						vs := sp.(*ast.ValueSpec)
+						for i, nm := range vs.Names {
 							pkgVars[nm.Name] = true
+							// a compiled regular expression is used through methods but never changes
+							if i < len(vs.Values) && strings.HasPrefix(src(vs.Values[i]), "regexp.MustCompile(") {
+								pureVars[nm.Name] = true
+							}
+							if vs.Type != nil && (strings.Contains(src(vs.Type), "sync.") || strings.Contains(src(vs.Type), "atomic.")) {
+								nondet = append(nondet, fmt.Sprintf("%s:%d: package-level variable %s of type %s (state shared between compilations)", filepath.Base(fset.Position(nm.Pos()).Filename), fset.Position(nm.Pos()).Line, nm.Name, src(vs.Type)))
+							}
 						}
 					}
 				}
@@ -596,6 +605,14 @@ func main() {
 						}
 					case *ast.IncDecStmt:
 						lhs = []ast.Expr{x.X}
+					}
+					// a method called on a package-level variable (Store, Swap, Put, Do, Lock, …) may change it
+					if ce, ok := n.(*ast.CallExpr); ok {
+						if se, ok := ce.Fun.(*ast.SelectorExpr); ok {
+							if r := root(se.X); r != "" && pkgVars[r] && !local[r] && !pureVars[r] {
+								nondet = append(nondet, fmt.Sprintf("%s:%d: function %s calls %s on package-level variable %s", filepath.Base(fset.Position(ce.Pos()).Filename), fset.Position(ce.Pos()).Line, fd.Name.Name, se.Sel.Name, r))
+							}
+						}
 					}
 					for _, l := range lhs {
 						if r := root(l); r != "" && pkgVars[r] && !local[r] {
